@@ -205,9 +205,12 @@ def register_edits(case, bu, ctx, rec, functions, order=None, extras=True):
             # the per-block registrations)
             from gtirb_rewriting import (AllFunctionsScope, BlockPosition,
                                          FunctionPosition)
+            # (ANYWHERE leaves the offset to the library, which takes the
+            # first candidate: the block's start)
             ctx.register_insert(
                 AllFunctionsScope(FunctionPosition.ENTRY,
-                                  BlockPosition.ENTRY,
+                                  BlockPosition.ANYWHERE if e.get("anywhere")
+                                  else BlockPosition.ENTRY,
                                   {fn_by_name[e["fn"]].get_name()}), patch)
         elif e["op"] == "ins":
             ctx.insert_at(blk, off, patch)
